@@ -186,6 +186,9 @@ fn huge_amounts(run: &Run, thorough: bool) {
 }
 
 pub fn run(run: &Run) {
+    // withdrawals of liquidity tokens the built-in pools never issued (faucet-minted; C16's scenario): whatever is settled, the
+    // payouts come out of the reserves
+    crate::props::c16::unissued_liquidity_tokens(run, run.thorough());
     run_std_genesis(run, if run.thorough() { 8 } else { 6 });
     huge_amounts(run, run.thorough());
     many_huge_requests(run, run.thorough());
